@@ -20,8 +20,12 @@ THEOREMS = [
     "PauLie.C03.C03_qubit_perm", "PauLie.C03.C03_qubit_swap", "PauLie.C03.C03_relabel", "PauLie.C03.C03_relabel_site",
     "PauLie.C03.C03_append_identity", "PauLie.C03.C03_contract", "PauLie.C03.C03_add_product",
     "PauLie.C03.C03_spec_same_members", "PauLie.C03.C03_from_C01", "PauLie.C03.C03_from_C01_dim_centre", "PauLie.C03.C03_fix_sound",
+    "PauLie.C03.C03_full_closure_map", "PauLie.C03.C03_full_invOfClosure_map", "PauLie.C03.C03_full_invariant",
+    "PauLie.C03.C03_from_C01_full", "PauLie.C03.C03_full_instances", "PauLie.C03.C03_invOfClosure_not_graphInvariant",
+    "PauLie.C03.C03_full_perm", "PauLie.C03.closedInvariant_invOfClosure", "PauLie.C03.C03_closureList_closed",
+    "PauLie.C03.C03_full_same_closure", "PauLie.C03.C03_from_C01_closed",
 ] + CLOSURE_THEOREMS
-IMPORTS = ["PauLieVerif.Properties.C03"] + CLOSURE_IMPORTS
+IMPORTS = ["PauLieVerif.Properties.C03", "PauLieVerif.Properties.C03Full"] + CLOSURE_IMPORTS
 
 MODEL_MAXN = 12
 OBS = {}          # observations for the evidence (filled by the sweep)
